@@ -375,7 +375,7 @@ def case(ctx):
                   {"op": "add", "path": dn + "/a", "id": "qa"}, {"op": "commit"}]
         for k, nm in enumerate(rng.sample(["n1", "n2", "n3", "b", "z"], rng.randint(2, 4))):
             script += [{"op": "mkfile", "path": dn + "/" + nm, "content": b"new %d\n" % k}, {"op": "add", "path": dn + "/" + nm, "id": "qn%d" % k}]
-        script += [{"op": rng.choice(["unversion", "unversion", "remove"]), "path": dn}]
+        script += [{"op": rng.choice(["unversion", "unversion", "remove"]), "path": dn, "api": rng.choice(["unversion", "unversion", "remove"])}]
         ctx.hist("uncommitted-children-preamble")
     nops += len(script)
     for step in range(nops + 1):
